@@ -55,6 +55,15 @@ def colRun (c : mbapp.collectorT) : List String → String → Go.M (mbapp.colle
       colRun c' ps (acc ++ b2s e.isSome)
     | _ => pure (c, acc ++ "?")
 
+def aggRun (a : fragswarm.aggregatorT) : List String → String → Go.M (fragswarm.aggregatorT × String)
+  | [], acc => pure (a, acc)
+  | p :: ps, acc =>
+    match p.splitOn ":" with
+    | [part, total, d] => do
+      let (done, a') ← fragswarm.aggregator.addPart a (UInt8.ofNat (natArg part)) (UInt8.ofNat (natArg total)) (hexU d)
+      aggRun a' ps (acc ++ b2s done)
+    | _ => pure (a, acc ++ "?")
+
 def setAll (h : Go.Bytes) (a : List String) : Go.M Go.Bytes :=
   match a with
   | [ask, reply, err, ot, ctr, size, idx, cnt, tmo] => do
@@ -101,6 +110,14 @@ def srcStep (_ : Unit) (ops : List String) (_impl : String) : Unit × String :=
     | ["frag", "parse", x] =>
       showM (fragswarm.parseMessage (hexU x)) (fun r =>
         if r.2.2.2.2.isSome then "err" else s!"ok {r.1.toNat} {r.2.1.toNat} {r.2.2.1.toNat} {showU r.2.2.2.1}")
+    | "frag" :: "agg" :: rest =>
+      showM (do
+        let frs := match rest with
+          | [ps] => ps.splitOn ","
+          | _ => []
+        let (a, done) ← aggRun { parts := none } frs ""
+        let asm ← fragswarm.aggregator.assemble a
+        pure s!"d{done} {showU asm}") id
     | ["ke", "class", x] =>
       showM (do
         let a ← p2pke.IsInitHello (hexU x)
